@@ -435,4 +435,47 @@ theorem intsOkKvs_reparse : ∀ (kvs : EKvs), intsOkKvs kvs = true → intsOkKvs
     simp [reparseKvs, intsOkKvs, intsOk_reparse e h.1, intsOkKvs_reparse r h.2]
 end
 
+
+/-! ### the operand of a split argument -/
+
+/-- For a map operand the two branches of `convertSplit` are one rule: the
+outer literal stays a map and every value is converted at the parameter's
+type (for `mapDim = 0` this is what converting at `map<T>` does). -/
+theorem convertSplit_obj (t : TypeId) (kvs : JKvs) :
+    convertSplit t (.obj kvs) =
+      (ofJKvs kvs).map fun es => .map false (fixVals t.base t.arrayDim t.mapDim es) := by
+  unfold convertSplit
+  by_cases h : t.mapDim = 0
+  · simp only [h, if_true, convert, splitSourceType, ofJ]
+    cases ofJKvs kvs with
+    | none => rfl
+    | some es => simp [fix, mapAction]
+  · simp [h]
+
+theorem convertSplit_not_obj (t : TypeId) (v : J) (h : ∀ kvs, v ≠ .obj kvs) :
+    convertSplit t v = convert t v := by
+  cases v with
+  | obj kvs => exact absurd rfl (h kvs)
+  | lit l => simp [convertSplit, splitSourceType]
+  | arr xs => simp [convertSplit, splitSourceType]
+
+theorem encode_convertSplit (t : TypeId) (v : J) (e : Exp) (h : convertSplit t v = some e) :
+    encode e = normJ v := by
+  cases v with
+  | obj kvs =>
+    rw [convertSplit_obj] at h
+    simp only [Option.map_eq_some_iff] at h
+    obtain ⟨es, hes, rfl⟩ := h
+    simp [encode, normJ, encodeKvs_fixVals, encodeKvs_ofJKvs kvs es hes]
+  | lit l =>
+    rw [convertSplit_not_obj t _ (by intro kvs hh; cases hh)] at h
+    simp only [convert, Option.map_eq_some_iff] at h
+    obtain ⟨e0, h0, rfl⟩ := h
+    rw [encode_fix, encode_ofJ _ e0 h0]
+  | arr xs =>
+    rw [convertSplit_not_obj t _ (by intro kvs hh; cases hh)] at h
+    simp only [convert, Option.map_eq_some_iff] at h
+    obtain ⟨e0, h0, rfl⟩ := h
+    rw [encode_fix, encode_ofJ _ e0 h0]
+
 end Martian.Invocation
